@@ -26,6 +26,7 @@ type fakeRouter struct {
 	g       *Rand
 	peer    wamp.Peer
 	hostile bool
+	progPlanned map[string]int // call tag -> progressive results sent before the final reply
 	rto     time.Duration // the client's response timeout
 	done    chan struct{} // closed when the router side stops
 	stopped bool
@@ -175,9 +176,15 @@ func (f *fakeRouter) serve() {
 			f.delays[x.Request] = d
 			var seq []wamp.Message
 			if rp, _ := x.Options["receive_progress"].(bool); rp {
-				n := f.g.Intn(4)
+				n := f.g.Intn(5)
 				for i := 0; i < n; i++ {
 					seq = append(seq, &wamp.Result{Request: x.Request, Details: wamp.Dict{"progress": true}, Arguments: wamp.List{x.Arguments[0], i}})
+				}
+				if tag, ok := wamp.AsString(x.Arguments[0]); ok {
+					if f.progPlanned == nil {
+						f.progPlanned = map[string]int{}
+					}
+					f.progPlanned[tag] = n
 				}
 			}
 			if f.g.Chance(1, 6) {
@@ -416,6 +423,8 @@ func runClient(c *Ctx, hostile bool) {
 	var results []*appRes
 	progAfterReturn := ""
 	progOrder := ""
+	progCount := map[string]int{}
+	slowProg := false // some progress handler takes longer than the response time-out: while it runs the client's receive loop waits (no latency is promised for what queues up behind it)
 	done := make(chan int)
 	for a := 0; a < napps; a++ {
 		simrt.Go(fmt.Sprintf("app:%d", a), func() {
@@ -454,7 +463,12 @@ func runClient(c *Ctx, hostile bool) {
 					lastP := -1
 					if o.kind == 7 {
 						slow := time.Duration(o.n%3) * 7 * time.Millisecond // some handlers lag behind the stream
+						if o.n%5 == 4 {
+							slow = rto + 10*time.Millisecond // ... some by more than the response time-out
+							slowProg = true
+						}
 						prog = func(res *wamp.Result) {
+							progCount[tag]++
 							if returned {
 								progAfterReturn = tag
 							}
@@ -596,6 +610,19 @@ func runClient(c *Ctx, hostile bool) {
 	if progOrder != "" && !hostile {
 		c.Violf("progressive results delivered out of order: %s", progOrder)
 	}
+	if !hostile && f.closedBy == "" {
+		// a Call that returned its final result was handed every progressive result sent before it
+		for _, r := range results {
+			if r.op == "callprog" && r.err == nil {
+				if want, ok := f.progPlanned[r.req]; ok {
+					c.Probe("progressive_results_counted")
+					if progCount[r.req] != want {
+						c.Violf("Call %s returned its final result, but its progress handler saw %d of the %d progressive results the router had sent before it", r.req, progCount[r.req], want)
+					}
+				}
+			}
+		}
+	}
 	// a Call that sent CANCEL (its context ended) returns an error - the context's, or the reply
 	// time-out when the CANCEL is never answered - never a result that turned up afterwards
 	{
@@ -649,7 +676,7 @@ func runClient(c *Ctx, hostile bool) {
 			if handlerRuns[id] > 1 {
 				c.Violf("invocation %d ran its handler %d times", id, handlerRuns[id])
 			}
-			if iv.interrupted && waitingHandler[id] {
+			if iv.interrupted && waitingHandler[id] && !slowProg {
 				if at, seen := ctxCancelAt[id]; !seen || at > iv.interruptAt+time.Second {
 					c.Violf("invocation %d: the handler's context was not cancelled by the INTERRUPT sent at %v (cancelled: %v at %v)", id, iv.interruptAt, seen, at)
 				}
